@@ -150,6 +150,9 @@ func (c *conn) send(request data) error {
 func (c *conn) Send(ctx context.Context, onExit func()) {
 	var err error
 	defer func() {
+		if e := recover(); e != nil {
+			err = core.NewPanicError(e)
+		}
 		c.Exit(onExit, err)
 	}()
 	for {
@@ -203,6 +206,9 @@ func (c *conn) receive() (err error) {
 func (c *conn) Receive(ctx context.Context, onExit func()) {
 	var err error
 	defer func() {
+		if e := recover(); e != nil {
+			err = core.NewPanicError(e)
+		}
 		c.Exit(onExit, err)
 	}()
 	for {
